@@ -128,6 +128,10 @@ class Interp:
             if v.kind in ('list', 'deque'):
                 return z3.Length(v.term) > 0
             raise Unsupported('truth of set/dict box')
+        if type(v).__name__ == 'PyList':
+            return len(v.items) > 0
+        if type(v).__name__ == 'PyDict':
+            return len(v.d) > 0
         if isinstance(v, (VStruct, VObj, VAbs)):
             if isinstance(v, VStruct) and v.pycls is not None and (hasattr(v.pycls, '__bool__') or hasattr(v.pycls, '__len__')):
                 raise Unsupported('truth of object with __bool__/__len__')
@@ -241,6 +245,10 @@ class Interp:
             return a.term == b.term
         if isinstance(a, VStruct) or isinstance(b, VStruct):
             return self.struct_eq(a, b)
+        if type(a).__name__ == 'PyList' and (z3.is_expr(b) or isinstance(b, VBox)):
+            a = tuple(a.items)
+        if type(b).__name__ == 'PyList' and (z3.is_expr(a) or isinstance(a, VBox)):
+            b = tuple(b.items)
         if isinstance(a, VBox) or isinstance(b, VBox):
             ta = a.term if isinstance(a, VBox) else a
             tb = b.term if isinstance(b, VBox) else b
